@@ -206,10 +206,10 @@ Proof.
   rewrite resize_grow by lia. replace (S (length store) - length store)%nat with 1%nat by lia. reflexivity.
 Qed.
 
-(* pack_4bitx2 (numpy code) = arithmetic packing of the low nibbles of the storage bytes *)
-Lemma pack4_correct store : pack_4bitx2 store = spec_pack4 (map (fun s => s mod 16) store).
+(* pack_4bitx2_hand (numpy code) = arithmetic packing of the low nibbles of the storage bytes *)
+Lemma pack4_correct_hand store : pack_4bitx2_hand store = spec_pack4 (map (fun s => s mod 16) store).
 Proof.
-  unfold pack_4bitx2. rewrite pack4_flat.
+  unfold pack_4bitx2_hand. rewrite pack4_flat.
   induction store as [| a | a b r IH] using list_ind2.
   - reflexivity.
   - change (pad2 [a]) with [a; 0]. cbn [map pack4_pairs spec_pack4]. rewrite land15. change (N.land 0 15) with 0.
@@ -240,9 +240,9 @@ Proof.
     destruct (unpack4_bits a b Ha Hb) as [E1 E2]. rewrite E1, E2. reflexivity.
 Qed.
 
-Lemma unpack4_correct xs : Forall (fun x => x < 16) xs -> unpack_4bitx2 (spec_pack4 xs) (length xs) = xs.
+Lemma unpack4_correct_hand xs : Forall (fun x => x < 16) xs -> unpack_4bitx2_hand (spec_pack4 xs) (length xs) = xs.
 Proof.
-  intros H. unfold unpack_4bitx2. rewrite unpack4_raw by exact H. unfold pad2.
+  intros H. unfold unpack_4bitx2_hand. rewrite unpack4_raw by exact H. unfold pad2.
   destruct (Nat.odd (length xs)) eqn:E.
   - rewrite app_length. simpl length. replace (length xs + 1)%nat with (S (length xs)) by lia.
     rewrite Nat.eqb_refl, removelast_last. apply resize_exact. reflexivity.
@@ -309,9 +309,9 @@ Proof.
     simpl. rewrite app_nil_r. reflexivity.
 Qed.
 
-Lemma pack2_correct store : pack_2bitx4 store = spec_pack2 (map (fun s => s mod 4) store).
+Lemma pack2_correct_hand store : pack_2bitx4_hand store = spec_pack2 (map (fun s => s mod 4) store).
 Proof.
-  unfold pack_2bitx4. rewrite pack2_flat.
+  unfold pack_2bitx4_hand. rewrite pack2_flat.
   induction store as [| a | a b | a b c | a b c d r IH] using list_ind4.
   - reflexivity.
   - change (pad4 [a]) with [a; 0; 0; 0]. cbn [map pack2_quads spec_pack2]. rewrite land3. change (N.land 0 3) with 0.
@@ -355,9 +355,9 @@ Proof.
     rewrite unpack2_bits by assumption. reflexivity.
 Qed.
 
-Lemma unpack2_correct xs : Forall (fun x => x < 4) xs -> unpack_2bitx4 (spec_pack2 xs) (length xs) = xs.
+Lemma unpack2_correct_hand xs : Forall (fun x => x < 4) xs -> unpack_2bitx4_hand (spec_pack2 xs) (length xs) = xs.
 Proof.
-  intros H. unfold unpack_2bitx4. fold crumbs. change (fun d : N => crumbs d) with crumbs.
+  intros H. unfold unpack_2bitx4_hand. fold crumbs. change (fun d : N => crumbs d) with crumbs.
   rewrite unpack2_raw by exact H. unfold pad4.
   set (k := ((4 - length xs mod 4) mod 4)%nat).
   rewrite app_length, repeat_length.
@@ -378,19 +378,19 @@ Qed.
 
 (* ------------------------------------------------------------------ C04_pack_unpack *)
 
-Lemma pack_unpack4 xs :
-  unpack_4bitx2 (pack_4bitx2 xs) (length xs) = map (fun x => x mod 16) xs.
+Lemma pack_unpack4_hand xs :
+  unpack_4bitx2_hand (pack_4bitx2_hand xs) (length xs) = map (fun x => x mod 16) xs.
 Proof.
-  rewrite pack4_correct. rewrite <- (map_length (fun x => x mod 16) xs) at 1.
-  apply unpack4_correct. apply Forall_forall. intros y Hy. apply in_map_iff in Hy.
+  rewrite pack4_correct_hand. rewrite <- (map_length (fun x => x mod 16) xs) at 1.
+  apply unpack4_correct_hand. apply Forall_forall. intros y Hy. apply in_map_iff in Hy.
   destruct Hy as [x [<- _]]. apply N.mod_lt. discriminate.
 Qed.
 
-Lemma pack_unpack2 xs :
-  unpack_2bitx4 (pack_2bitx4 xs) (length xs) = map (fun x => x mod 4) xs.
+Lemma pack_unpack2_hand xs :
+  unpack_2bitx4_hand (pack_2bitx4_hand xs) (length xs) = map (fun x => x mod 4) xs.
 Proof.
-  rewrite pack2_correct. rewrite <- (map_length (fun x => x mod 4) xs) at 1.
-  apply unpack2_correct. apply Forall_forall. intros y Hy. apply in_map_iff in Hy.
+  rewrite pack2_correct_hand. rewrite <- (map_length (fun x => x mod 4) xs) at 1.
+  apply unpack2_correct_hand. apply Forall_forall. intros y Hy. apply in_map_iff in Hy.
   destruct Hy as [x [<- _]]. apply N.mod_lt. discriminate.
 Qed.
 
@@ -400,14 +400,14 @@ Proof.
 Qed.
 
 (* bytes whose padding bits are zero are exactly the images of in-range element lists *)
-Lemma unpack_pack4 xs : Forall (fun x => x < 16) xs ->
-  pack_4bitx2 (unpack_4bitx2 (spec_pack4 xs) (length xs)) = spec_pack4 xs.
+Lemma unpack_pack4_hand xs : Forall (fun x => x < 16) xs ->
+  pack_4bitx2_hand (unpack_4bitx2_hand (spec_pack4 xs) (length xs)) = spec_pack4 xs.
 Proof.
-  intros H. rewrite unpack4_correct by exact H. rewrite pack4_correct, map_mod_small by exact H. reflexivity.
+  intros H. rewrite unpack4_correct_hand by exact H. rewrite pack4_correct_hand, map_mod_small by exact H. reflexivity.
 Qed.
 
-Lemma unpack_pack2 xs : Forall (fun x => x < 4) xs ->
-  pack_2bitx4 (unpack_2bitx4 (spec_pack2 xs) (length xs)) = spec_pack2 xs.
+Lemma unpack_pack2_hand xs : Forall (fun x => x < 4) xs ->
+  pack_2bitx4_hand (unpack_2bitx4_hand (spec_pack2 xs) (length xs)) = spec_pack2 xs.
 Proof.
-  intros H. rewrite unpack2_correct by exact H. rewrite pack2_correct, map_mod_small by exact H. reflexivity.
+  intros H. rewrite unpack2_correct_hand by exact H. rewrite pack2_correct_hand, map_mod_small by exact H. reflexivity.
 Qed.
